@@ -36,6 +36,8 @@ func init() {
 			{ID: "C15-R13", Title: "Equals and HashKey look at the same thing", Floor: 1, Run: equalsAndHashKeyLookAtTheSameThing},
 			{ID: "C15-R14", Title: "pair walks remember pairs", Floor: 2, Run: pairWalksRememberPairs},
 			{ID: "C15-R15", Title: "literals build their own kind", Floor: 3, Run: literalsBuildTheirOwnKind},
+			{ID: "C15-R16", Title: "hash keys take the value as it is", Floor: 5, Run: hashKeysTakeTheValueAsItIs},
+			{ID: "C15-R17", Title: "failures noted in sort callbacks stick (shared with C16-R25)", Floor: 1, Run: failuresNotedInCallbacksStick},
 		},
 	})
 }
